@@ -7,7 +7,7 @@
                                    GIVEN cnt[e] = cnt and last[key(e), s] = last for it
      Published(n, cur, cnt, last)  job checkpoint n was written: split cursors + the keyed state
                                    read back from the operators' DKV checkpoints
-     Kill(nodes) / Restart(n, lost) / Final(...) / Reset (next run)
+     Start(w) / Kill(nodes) / Restart(n, lost, w) / Final(...) / Reset (next run)
 
    and must be explained by the ABSTRACT exactly-once semantics, using
    Recovery's own state operators: st[o] is the state of the failure-free run
@@ -32,21 +32,21 @@ VARIABLES l,      \* next line of the trace
           tpub    \* published checkpoints: set of [n, cur]
 tvars == <<vars, l, pos, tpub>>
 
-TraceInit == Init /\ l = 1 /\ pos = [s \in Splits |-> [o \in Workers |-> 0]] /\ tpub = {}
+TraceInit == Init /\ nw = W /\ l = 1 /\ pos = [s \in Splits |-> [o \in Workers |-> 0]] /\ tpub = {}
 
 Evt == TraceLog[l]
 IsEvent(e) == l <= Len(TraceLog) /\ Evt.op = e /\ l' = l + 1
-Frozen == UNCHANGED <<cursor, out, slot, inside, pend, bar, opack, startq, srack, ckptId, pending, pub, completed, nck, nkills, hist>>
+Frozen == UNCHANGED <<cursor, out, slot, inside, pend, bar, opack, startq, srack, ckptId, pending, pubs, completed, nck, nkills, hist>>
 
 Min(S) == CHOOSE x \in S : \A y \in S : x <= y
-NextFor(s, o, p) == LET c == {j \in (p + 1)..NRecs : Owner[KeyOf[s][j]] = o} IN IF c = {} THEN 0 ELSE Min(c)
+NextFor(s, o, p) == LET c == {j \in (p + 1)..NRecs : OwnerAt[nw][KeyOf[s][j]] = o} IN IF c = {} THEN 0 ELSE Min(c)
 Range(f) == {f[x] : x \in DOMAIN f}
 Free(o) == Dev_AssignUnsorted /\ o \in lostOps      \* operator unconstrained after the known deviation hit it
 
 TDeliver ==
   /\ IsEvent("Deliver")
   /\ LET e == <<Evt.s, Evt.i>> o == Evt.o IN
-     /\ e \in Ev /\ o \in Workers /\ o = Own(e)
+     /\ e \in Ev /\ o \in Live /\ o = Own(e)
      \* no loss / duplicate / reordering within (split, operator). After a Kill (until the Restart)
      \* the survivors' streams may have gaps: a failed call makes a runner drop the rest of that
      \* batch and die while batches it had already queued are still sent; that generation is doomed
@@ -56,7 +56,7 @@ TDeliver ==
      /\ clean' = (clean /\ (Free(o) \/ CleanGiven([s |-> Evt.s, i |-> Evt.i, cnt |-> Evt.cnt, last |-> Evt.last])))
      /\ st' = [st EXCEPT ![o] = ApplyOne(@, e)]
      /\ pos' = [pos EXCEPT ![Evt.s][o] = Evt.i]
-  /\ UNCHANGED <<dead, lostOps, tpub>> /\ Frozen
+  /\ UNCHANGED <<nw, dead, lostOps, tpub>> /\ Frozen
 
 \* the snapshot carried by a Published / Final event, as functions
 CntOf(e) == LET m == {x \in Range(Evt.cnt) : x[1] = e[1] /\ x[2] = e[2]} IN IF m = {} THEN 0 ELSE (CHOOSE x \in m : TRUE)[3]
@@ -65,45 +65,55 @@ SnapIsCut(cur) ==
   /\ Evt.dups = 0 /\ Evt.misplaced = 0
   /\ \A x \in Range(Evt.cnt) : <<x[1], x[2]>> \in Ev
   /\ \A e \in Ev : Free(Own(e)) \/ CntOf(e) = CutSt(Own(e), cur).cnt[e]
-  /\ \A k \in Keys, s \in Splits : Free(Owner[k]) \/ LastOf(k, s) = CutSt(Owner[k], cur).last[<<k, s>>]
+  /\ \A k \in Keys, s \in Splits : Free(OwnerAt[nw][k]) \/ LastOf(k, s) = CutSt(OwnerAt[nw][k], cur).last[<<k, s>>]
 
 TPublished ==
   /\ IsEvent("Published")
   /\ Len(Evt.cur) = NSplits /\ \A s \in Splits : Evt.cur[s] \in 0..NRecs
   /\ SnapIsCut(Evt.cur)
   /\ tpub' = {p \in tpub : p.n # Evt.n} \cup {[n |-> Evt.n, cur |-> Evt.cur]}
-  /\ UNCHANGED <<dead, st, clean, lostOps, pos>> /\ Frozen
+  /\ UNCHANGED <<nw, dead, st, clean, lostOps, pos>> /\ Frozen
 
 TFinal ==
   /\ IsEvent("Final")
   /\ Len(Evt.cur) = NSplits /\ \A s \in Splits : Evt.cur[s] = NRecs
   /\ SnapIsCut(Evt.cur)
-  /\ UNCHANGED <<dead, st, clean, lostOps, pos, tpub>> /\ Frozen
+  /\ UNCHANGED <<nw, dead, st, clean, lostOps, pos, tpub>> /\ Frozen
 
 TKill ==
   /\ IsEvent("Kill")
   /\ dead' = {x \in 0..W : x \in dead \/ x \in Range(Evt.nodes)}
-  /\ UNCHANGED <<st, clean, lostOps, pos, tpub>> /\ Frozen
+  /\ UNCHANGED <<nw, st, clean, lostOps, pos, tpub>> /\ Frozen
 
 TRestart ==
   /\ IsEvent("Restart")
   /\ LET lost == Range(Evt.lost)
          cur  == IF Evt.n = 0 THEN [s \in Splits |-> 0] ELSE (CHOOSE p \in tpub : p.n = Evt.n).cur
+         n    == IF "w" \in DOMAIN Evt THEN Evt.w ELSE nw   \* worker count of the new generation (rescale at recovery)
      IN /\ Evt.n = 0 \/ \E p \in tpub : p.n = Evt.n      \* restored from a checkpoint that was published
         /\ Dev_AssignUnsorted \/ lost = {}                \* every operator restored from its checkpoint
-        /\ st' = [o \in Workers |-> IF o \in lost THEN EmptySt ELSE CutSt(o, cur)]
+        /\ n \in Counts /\ nw' = n
+        /\ st' = [o \in Workers |-> IF o \in lost THEN EmptySt ELSE CutStAt(n, o, cur)]
         /\ pos' = [s \in Splits |-> [o \in Workers |-> cur[s]]]
         /\ lostOps' = {o \in Workers : o \in lostOps \/ o \in lost}
   /\ dead' = {}
   /\ UNCHANGED <<clean, tpub>> /\ Frozen
 
+\* the first generation of a run has Evt.w workers (only as the first event of a run: nothing delivered, published or killed yet)
+TStart ==
+  /\ IsEvent("Start")
+  /\ Evt.w \in Counts /\ nw' = Evt.w
+  /\ dead = {} /\ tpub = {} /\ \A s \in Splits, o \in Workers : pos[s][o] = 0
+  /\ UNCHANGED <<dead, st, clean, lostOps, pos, tpub>> /\ Frozen
+
 TReset ==
   /\ IsEvent("Reset")
+  /\ nw' = W
   /\ dead' = {} /\ st' = [o \in Workers |-> EmptySt] /\ clean' = TRUE /\ lostOps' = {}
   /\ pos' = [s \in Splits |-> [o \in Workers |-> 0]] /\ tpub' = {}
   /\ Frozen
 
-TraceNext == TDeliver \/ TPublished \/ TFinal \/ TKill \/ TRestart \/ TReset
+TraceNext == TDeliver \/ TPublished \/ TFinal \/ TKill \/ TRestart \/ TReset \/ TStart
 TraceSpec == TraceInit /\ [][TraceNext]_tvars
 
 TraceAccepted ==
